@@ -17,6 +17,12 @@
 4. Regression block: the witnesses of the repaired defects (Props/C14.v ..._old_refuted: second solve
    on one LTV object, T=1 at a stale time, MPC on an LTV object, n_state=1 with a batch) must satisfy
    the property now.
+5. Sessions: ONE system object and ONE LQR / MPC object, several solves in a row; arguments are new tensors of
+   every memory layout (transposed, strided, offset, expand()ed stride-0), the tensor objects of the previous
+   call untouched or edited in place by the caller, or the inputs returned by the previous call (untouched /
+   edited in place / copied); each solve is judged by the oracle of 2 on the argument values at call time; no
+   argument may be changed by a call (bit-for-bit snapshots, also on routes 1 and 2) and no earlier result may
+   change afterwards.
 A scalar model/implementation mismatch is searched with the oracle of 2."""
 import math
 from ..common import *
@@ -133,12 +139,19 @@ def T64(x):
     return torch.tensor(x, dtype=torch.float64)
 
 
-def build_system(P):
-    """P: dict(kind 'lti'|'ltv', N, A, B, c1, t0); lti: A [nb][ns][ns]; ltv: A [nb][N][ns][ns]"""
+def build_system(P, lay=None, held=None):
+    """P: dict(kind 'lti'|'ltv', N, A, B, c1, t0); lti: A [nb][ns][ns]; ltv: A [nb][N][ns][ns].
+    lay: memory layouts of A, B, c1 (layout_tensor); held: receives name -> (tensor given to the constructor, its base)"""
     c = classes()
     pp, torch = c['pp'], c['torch']
-    A, B = T64(P['A']), T64(P['B'])
-    c1 = None if P['c1'] is None else T64(P['c1'])
+    lay = lay or {}
+    A, Ab = layout_tensor(P['A'], lay.get('A', 'contig'))
+    B, Bb = layout_tensor(P['B'], lay.get('B', 'contig'))
+    c1, cb = (None, None) if P['c1'] is None else layout_tensor(P['c1'], lay.get('c1', 'contig'))
+    if held is not None:
+        held.update(A=(A, Ab), B=(B, Bb))
+        if c1 is not None:
+            held['c1'] = (c1, cb)
     ns, nc = A.shape[-1], B.shape[-1]
     if P['kind'] == 'lti':
         nb = A.shape[0]
@@ -155,6 +168,34 @@ def build_system(P):
     return s
 
 
+def layout_tensor(vals, layout):
+    """a float64 tensor with the given memory layout -> (tensor, base tensor owning its storage).
+    'contig'; 'transposed' (last two dims stored swapped); 'strided' (every second element of a larger
+    tensor filled with 7777); 'offset' (rows 1..n of a larger tensor); 'expand<d>' (stride 0 along dim d:
+    the values of index 0 of that dim repeated - read the values back from the tensor)."""
+    torch = classes()['torch']
+    v = T64(vals)
+    if layout.startswith('expand'):
+        d = int(layout[6:])
+        if d < v.ndim and v.shape[d] >= 1:
+            base = v.narrow(d, 0, 1).clone()
+            return base.expand(v.shape), base
+        return v, v
+    if layout == 'transposed' and v.ndim >= 2:
+        w = v.transpose(-1, -2).contiguous().transpose(-1, -2)
+        return w, w
+    if layout == 'strided':
+        big = torch.full(tuple(2 * n + 1 for n in v.shape), 7777.0, dtype=torch.float64)
+        idx = tuple(slice(1, None, 2) for _ in v.shape)
+        big[idx] = v
+        return big[idx], big
+    if layout == 'offset':
+        big = torch.full((v.shape[0] + 2,) + tuple(v.shape[1:]), -7777.0, dtype=torch.float64)
+        big[1:-1] = v
+        return big[1:-1], big
+    return v, v
+
+
 def run_lqr(system, S):
     """one LQR.forward on [system]; S: dict(T, Q, p, x0, u, dt, tile).  -> dict(x,u,cost,t) | dict(raised=..)"""
     c = classes()
@@ -165,12 +206,16 @@ def run_lqr(system, S):
     if S['T'] == 0:
         torch = c['torch']
         Q, p = torch.zeros(x0.shape[0], 0, 2, 2, dtype=torch.float64), torch.zeros(x0.shape[0], 0, 2, dtype=torch.float64)
+    args = [('Q', Q), ('p', p), ('x_init', x0)] + ([] if u is None else [('u_traj', u)])
+    snap = [(n, t, t.clone()) for n, t in args]
     try:
         lqr = pp.module.LQR(system, Q, p, S['T'])
         x, uu, cost = lqr(x0, S.get('dt', 1), u)
     except Exception as e:      # noqa
         return dict(raised='%s: %s' % (type(e).__name__, str(e)[:120]), t=int(system.systime))
-    return dict(x=x.tolist(), u=uu.tolist(), cost=cost.tolist(), t=int(system.systime))
+    torch = c['torch']
+    return dict(x=x.tolist(), u=uu.tolist(), cost=cost.tolist(), t=int(system.systime),
+                mutated=[n for n, t, tc in snap if not torch.equal(t, tc)])
 
 
 # ---------------------------------------------------------------------------------------------
@@ -378,6 +423,215 @@ def classify(P, S, t_before, fails, mpc=False):
 
 
 # ---------------------------------------------------------------------------------------------
+# sessions: ONE system object and ONE LQR (or MPC) object, several solves in a row.  The arguments of a
+# solve may be new tensors (any memory layout), the very tensor objects of the previous solve (untouched or
+# edited in place by the caller), or the inputs RETURNED by the previous solve (untouched or edited in
+# place).  Every solve is judged by the property oracle on the values the arguments hold at the time of the
+# call; in addition no argument may be changed by a call and no earlier result may change afterwards.
+def apply_edit(view, base, e):
+    """the caller edits a tensor in place (an expanded tensor is edited through its base)"""
+    torch = classes()['torch']
+    exp = any(st == 0 and n > 1 for st, n in zip(view.stride(), view.shape))
+    tgt = base if exp else view
+    op = e['op']
+    if op == 'add':
+        tgt.add_(e['a'])
+    elif op == 'mul':
+        tgt.mul_(e['a'])
+    elif op == 'zero':
+        tgt.zero_()
+    elif op == 'clamp':
+        lim = e['a'] * float(tgt.abs().max()) if tgt.numel() else 0.0
+        tgt.clamp_(-lim, lim)
+    else:
+        r = torch.randn(tuple(tgt.shape), generator=torch.Generator().manual_seed(e['seed']), dtype=torch.float64) * e.get('a', 1.0)
+        if op == 'copy':
+            tgt.copy_(r)
+        elif op == 'row':                  # setitem on one row (one time step / one batch item)
+            i = e['t'] % tgt.shape[-2] if tgt.ndim >= 2 else 0
+            if tgt.ndim >= 2:
+                tgt[..., i, :] = r[..., i, :]
+            else:
+                tgt[...] = r
+
+
+def _take(spec, prev_arg, prev_ret):
+    """the tensor a step passes: -> (tensor | None, base | None)"""
+    src = spec['src']
+    if src == 'none':
+        return None, None
+    if src in ('obj', 'obj-edit') and prev_arg is not None and prev_arg[0] is not None:
+        t, bs = prev_arg
+        if src == 'obj-edit':
+            apply_edit(t, bs, spec['edit'])
+        return t, bs
+    if src == 'same' and prev_arg is not None and prev_arg[0] is not None:
+        t = prev_arg[0].clone()
+        return t, t
+    if src in ('ret', 'ret-edit', 'ret-copy') and prev_ret is not None:
+        if src == 'ret-copy':
+            t = prev_ret.clone()
+            return t, t
+        if src == 'ret-edit':
+            if any(sd == 0 and n > 1 for sd, n in zip(prev_ret.stride(), prev_ret.shape)):
+                prev_ret = prev_ret.clone()       # a self-overlapping result cannot be edited in place: the caller edits a copy
+            apply_edit(prev_ret, prev_ret, spec['edit'])
+        return prev_ret, prev_ret
+    return layout_tensor(spec['vals'], spec.get('layout', 'contig'))
+
+
+def describe_step(st):
+    def d(sp, what):
+        src = sp['src']
+        txt = {'none': 'None', 'new': 'a new tensor (%s)' % sp.get('layout', 'contig'), 'same': 'a new tensor with the values of the previous ' + what,
+               'obj': 'the tensor object of the previous call, untouched', 'obj-edit': 'the tensor object of the previous call after the caller edited it in place (%s)' % sp.get('edit'),
+               'ret': 'the inputs returned by the previous call (same tensor)', 'ret-copy': 'a copy of the inputs returned by the previous call',
+               'ret-edit': 'the inputs returned by the previous call after the caller edited them in place (%s)' % sp.get('edit')}[src]
+        return txt
+    return 'x_init = %s; u_traj = %s%s; call form %s' % (d(st['x0'], 'x_init'), d(st['u'], 'u_traj'),
+                                                        '' if st.get('reset') is None else '; system.reset(%d) before' % st['reset'], st.get('form', 'pos'))
+
+
+def run_session(case, upto=None):
+    """-> (records per step, effective problem P).  record: S (the solve with the argument VALUES at call time), tb, x/u/cost | raised,
+    mutated (arguments changed by the call), changed (earlier results changed by the call)"""
+    c = classes()
+    pp, torch = c['pp'], c['torch']
+    from pypose.utils.stepper import ReduceToBason
+    api, T, lay = case.get('api', 'lqr'), case['T'], case.get('lay') or {}
+    held = {}
+    system = build_system(case['P'], lay, held)
+    held['Q'], held['p'] = layout_tensor(case['Q'], lay.get('Q', 'contig')), layout_tensor(case['p'], lay.get('p', 'contig'))
+    P = dict(case['P'], A=held['A'][0].tolist(), B=held['B'][0].tolist(), c1=None if 'c1' not in held else held['c1'][0].tolist())
+    Qv, pv = held['Q'][0].tolist(), held['p'][0].tolist()
+    if api == 'mpc':
+        obj = pp.module.MPC(system, held['Q'][0], held['p'][0], T, stepper=ReduceToBason(steps=case.get('mpc_steps', 3)))
+    else:
+        obj = pp.module.LQR(system, held['Q'][0], held['p'][0], T)
+    recs, kept = [], []
+    prev = dict(x0=None, u=None, ret=None)
+    for si, st in enumerate(case['steps'][:upto]):
+        if st.get('reset') is not None:
+            system.reset(st['reset'])
+        x0 = _take(st['x0'], prev['x0'], None)
+        u = _take(st['u'], prev['u'], prev['ret'])
+        for ent in kept:                       # the caller's own in-place edit of a returned tensor is not the solver's doing
+            if ent[2] is u[0] or ent[2] is x0[0]:
+                ent[3] = ent[2].clone()
+        args = dict(held, x_init=x0)
+        if u[0] is not None:
+            args['u_traj'] = u
+        snap = [(n, t, t.clone(), bs, bs.clone()) for n, (t, bs) in args.items()]
+        tb = int(system.systime)
+        S = dict(T=T, Q=Qv, p=pv, tile=case.get('tile', False), x0=x0[0].tolist(), u=None if u[0] is None else u[0].tolist(), dt=1)
+        rec = dict(S=S, tb=tb, step=si)
+        form = st.get('form', 'pos')
+        try:
+            if api == 'mpc':
+                out = obj(1, x0[0], u_init=u[0]) if form == 'kw' else (obj(1, x0[0]) if (form == 'bare' and u[0] is None) else obj(1, x0[0], u[0]))
+            elif form == 'kw':
+                out = obj(x0[0], dt=1, u_traj=u[0])
+            elif form == 'bare' and u[0] is None:
+                out = obj(x0[0])
+            elif form == 'mixed':
+                out = obj(x0[0], 1, u_traj=u[0])
+            else:
+                out = obj(x0[0], 1, u[0])
+            x, uu, cost = out
+        except Exception as e:      # noqa
+            rec['raised'] = '%s: %s' % (type(e).__name__, str(e)[:120])
+            recs.append(rec)
+            break
+        rec['mutated'] = [n for n, t, tc, bs, bc in snap if not (torch.equal(t, tc) and torch.equal(bs, bc))]
+        rec['changed'] = ['%s of step %d' % (n, sj) for sj, n, t, tc in kept if not torch.equal(t, tc)]
+        rec.update(x=x.tolist(), u=uu.tolist(), cost=cost.tolist(), t=int(system.systime))
+        for n, t in (('x', x), ('u', uu), ('cost', cost)):
+            kept.append([si, n, t, t.clone()])
+        prev = dict(x0=x0, u=u, ret=uu)
+        recs.append(rec)
+    return recs, P
+
+
+def judge_session(case, rng=None, note=None):
+    """the property on every solve of a session: None | (key, text, index of the failing step)"""
+    api = case.get('api', 'lqr')
+    fn = 'MPC.forward' if api == 'mpc' else 'LQR.forward'
+    recs, P = run_session(case)
+    for rec in recs:
+        si, S, tb = rec['step'], rec['S'], rec['tb']
+        head = 'solve %d of %d on one %s object (%s): ' % (si + 1, len(case['steps']), 'MPC' if api == 'mpc' else 'LQR', describe_step(case['steps'][si]))
+        if 'raised' in rec:
+            return ('%s:%s:raises' % (fn, P['kind']), head + 'raised %s on a valid problem' % rec['raised'], si)
+        for bi in range(len(S['x0'])):
+            fails, meas = check_item(dict(P, t0=0 if api == 'mpc' else tb), S, bi, rec['x'], rec['u'], rec['cost'], rng=rng)
+            if note is not None:
+                note(meas)
+            if fails:
+                return ('%s:%s:%s:%s' % (fn, P['kind'], '+'.join(sorted({c for c, _ in fails})), 'first-call' if si == 0 else 'later-call-on-one-object'),
+                        head + 'batch item %d: ' % bi + '; '.join(t for _, t in fails[:3]), si)
+        if rec['mutated']:
+            return ('mutation:' + fn, head + 'the call changed its argument(s) %s in place (compared bit for bit with a snapshot taken before the call)'
+                    % ', '.join(rec['mutated']), si)
+        if rec['changed']:
+            return ('aliasing:' + fn, head + 'the call changed tensors returned by earlier calls: %s' % ', '.join(rec['changed']), si)
+    return None
+
+
+EDITS = [dict(op='add', a=0.5), dict(op='add', a=-1.5), dict(op='mul', a=-2.0), dict(op='mul', a=0.5), dict(op='zero'),
+         dict(op='clamp', a=0.05), dict(op='clamp', a=0.3), dict(op='copy', seed=1, a=1.0), dict(op='copy', seed=2, a=5.0),
+         dict(op='row', t=0, seed=3, a=2.0), dict(op='row', t=1, seed=4, a=2.0), dict(op='row', t=-1, seed=5, a=2.0)]
+LAYOUTS = ['contig', 'transposed', 'strided', 'offset', 'expand0', 'expand1']
+
+
+def gen_session(rng, g, api='lqr', sizes=None, kind=None, script=None, lay=None):
+    """script: list of (x0 src, u src, u layout, edit | None); lay: layouts of A, B, c1, Q, p"""
+    torch = classes()['torch']
+    if sizes is None:
+        sizes = (1 if api == 'mpc' else rng.randint(1, 3), rng.randint(1, 4), rng.randint(1, 3), rng.choice([1, 2, 2, 3, 4, 5, 6, 8]))
+    P, (nb, ns, nc, T) = gen_general(rng, g, sizes, kind)
+    S0 = gen_solve(rng, g, nb, ns, nc, T)
+    if lay is None:
+        lay = {}
+        if rng.random() < 0.5:
+            for name in ('A', 'B', 'c1', 'Q', 'p'):
+                if rng.random() < 0.5:
+                    lay[name] = rng.choice(LAYOUTS)
+    if script is None:
+        script = [('new', rng.choice(['none', 'new', 'new']), rng.choice(LAYOUTS), None)]
+        for j in range(rng.choice([1, 2, 2, 3])):
+            script.append((rng.choice(['new', 'same', 'same', 'obj', 'obj', 'obj-edit']),
+                           rng.choice(['none', 'new', 'same', 'obj', 'obj-edit', 'obj-edit', 'ret', 'ret-edit', 'ret-edit', 'ret-copy']),
+                           rng.choice(LAYOUTS), None))
+    steps = []
+    for (xs, us, ul, ed) in script:
+        x0 = (torch.randn(nb, ns, generator=g, dtype=torch.float64) * rng.choice([0.1, 1.0, 10.0])).tolist()
+        uv = (torch.randn(nb, T, nc, generator=g, dtype=torch.float64) * rng.choice([0.1, 1.0, 10.0])).tolist()
+        st = dict(x0=dict(src=xs, vals=x0, layout=rng.choice(['contig', 'contig', 'transposed', 'strided', 'offset', 'expand0'])),
+                  u=dict(src=us, vals=uv, layout=ul), form=rng.choice(['pos', 'kw', 'mixed', 'bare' if us == 'none' else 'pos']),
+                  reset=rng.randint(1, 30) if rng.random() < 0.2 else None)
+        if xs.endswith('-edit'):
+            st['x0']['edit'] = rng.choice(EDITS)
+        if us.endswith('-edit'):
+            st['u']['edit'] = ed or rng.choice(EDITS)
+        steps.append(st)
+    return dict(kind='session', api=api, P=P, T=T, Q=S0['Q'], p=S0['p'], tile=S0['tile'], lay=lay, steps=steps, mpc_steps=rng.randint(1, 5))
+
+
+# scripts of the directed block: every source of x_init / u_traj, every layout of u_traj, after every kind of history
+SESSION_SCRIPTS = [
+    ('warm-start-then-edited', [('new', 'none', 'contig', None), ('same', 'ret', 'contig', None), ('same', 'ret-edit', 'contig', dict(op='clamp', a=0.05)),
+                                ('same', 'same', 'contig', None)]),
+    ('returned-inputs-edited', [('new', 'new', 'contig', None), ('obj', 'ret-edit', 'contig', dict(op='mul', a=-2.0)), ('obj', 'ret-edit', 'contig', dict(op='row', t=1, seed=7, a=3.0))]),
+    ('own-nominal-edited', [('new', 'new', 'contig', None), ('obj', 'obj-edit', 'contig', dict(op='add', a=-1.5)), ('same', 'obj-edit', 'contig', dict(op='copy', seed=9, a=2.0)),
+                            ('obj', 'obj', 'contig', None)]),
+    ('x_init-edited', [('new', 'new', 'contig', None), ('obj-edit', 'obj', 'contig', None), ('obj-edit', 'ret', 'contig', None)]),
+    ('expanded-nominal', [('new', 'new', 'expand1', None), ('same', 'same', 'contig', None), ('new', 'new', 'expand0', None), ('obj', 'obj-edit', 'expand0', dict(op='add', a=0.5))]),
+    ('expanded-after-contiguous', [('new', 'new', 'contig', None), ('new', 'new', 'expand1', None), ('obj', 'obj-edit', 'expand1', dict(op='mul', a=-2.0))]),
+    ('strided-nominal', [('new', 'new', 'strided', None), ('obj', 'obj-edit', 'strided', dict(op='clamp', a=0.3)), ('new', 'new', 'transposed', None), ('new', 'new', 'offset', None)]),
+]
+
+
+# ---------------------------------------------------------------------------------------------
 # generators
 def rand_orth(torch, g, n):
     q, r = torch.linalg.qr(torch.randn(n, n, generator=g, dtype=torch.float64))
@@ -555,6 +809,9 @@ def run(ctx):
             t_before.append(int(system.systime))
             r = run_lqr(system, S)
             recs.append((S, r))
+            if r.get('mutated'):
+                ctx.violation('mutation:LQR.forward', 'LQR.forward changed its argument(s) %s in place' % ', '.join(r['mutated']),
+                              dict(kind='general', P=dict(P, t0=t_before[-1]), S=dict((k, v) for k, v in S.items() if k not in ('stages', 'x0s', 'us'))))
             if 'raised' in r:
                 exp = 'None'
             else:
@@ -737,6 +994,8 @@ def run(ctx):
                 if fails:
                     ctx.violation(classify(P, S, tb, fails), 'batch item %d: ' % bi + '; '.join(t for _, t in fails[:3]), case)
                     break
+            if r.get('mutated'):
+                ctx.violation('mutation:LQR.forward', 'LQR.forward changed its argument(s) %s in place' % ', '.join(r['mutated']), case)
 
     lap('general')
     # ------------------------------------------------------------------ 5. MPC against the property
@@ -763,6 +1022,33 @@ def run(ctx):
         if why:
             ctx.violation(why[0], why[1], case)
     lap('mpc')
+    # ------------------------------------------------------------------ 6. sessions on one LQR / MPC object: argument identity, in-place edits by the caller, layouts
+    def do_session(case, tag):
+        ctx.traces += 1
+        for si, st in enumerate(case['steps']):
+            ctx.case(('session', tag, si, case['api'], case['T'], repr(st)[:200]), nontrivial=case['T'] >= 2 and si >= 1,
+                     branch='session:%s:x_init=%s:u_traj=%s' % (case['api'], st['x0']['src'], st['u']['src']))
+            if st['u']['src'] in ('new',):
+                ctx.count('session:layout:u_traj=' + st['u']['layout'])
+        for name, l in sorted(case['lay'].items()):
+            ctx.count('session:layout:%s=%s' % (name, l))
+        try:
+            why = judge_session(case, rng=rng, note=note_meas)
+        except Exception as e:      # noqa  (the harness itself must not crash on a changed tree: report the input)
+            why = ('%s:session:harness-error' % ('MPC.forward' if case['api'] == 'mpc' else 'LQR.forward'),
+                   'the session could not be judged: %s: %s' % (type(e).__name__, str(e)[:200]), len(case['steps']) - 1)
+        if why:
+            ctx.violation(why[0], why[1], dict(case, steps=case['steps'][:why[2] + 1]))
+    dsz = [(2, 3, 2, 6), (1, 2, 1, 4), (3, 2, 2, 3), (2, 1, 1, 5), (2, 4, 3, 2), (3, 1, 2, 4), (2, 2, 2, 7)]
+    for k, (name, script) in enumerate(SESSION_SCRIPTS):
+        for api in ('lqr', 'mpc'):
+            sz = dsz[k] if api == 'lqr' else (1,) + dsz[k][1:]
+            do_session(gen_session(rng, g, api, sizes=sz, kind='ltv' if k % 3 == 2 else 'lti', script=script, lay={}), name)
+    for k, l in enumerate(LAYOUTS[1:]):
+        do_session(gen_session(rng, g, 'lqr', sizes=(2, 2, 2, 3), kind='ltv' if k % 2 else 'lti', lay=dict(A=l, B=l, c1=l, Q=l, p=l)), 'layout-' + l)
+    for k in range(ctx.scale(36, 300)):
+        do_session(gen_session(rng, g, 'mpc' if k % 4 == 3 else 'lqr'), 'random')
+    lap('sessions')
     ctx.notes.append('seconds per section: %s' % tsec)
     ctx.notes.append('worst measurements (units: feas in eps, others relative): %s' % worst)
 
@@ -856,7 +1142,12 @@ def check_case(case):
             if fails:
                 return (classify(P, S, P.get('t0', 0), fails),
                         'system time %d before the solve, batch item %d: %s' % (P.get('t0', 0), bi, '; '.join(t for _, t in fails[:3])))
+        if r.get('mutated'):
+            return ('mutation:LQR.forward', 'LQR.forward changed its argument(s) %s in place (bit-for-bit comparison with a snapshot)' % ', '.join(r['mutated']))
         return None
+    if k == 'session':
+        why = judge_session(case)
+        return None if why is None else (why[0], why[1])
     if k == 'second-solve':
         P, S = case['P'], case['S']
         system = build_system(P)
